@@ -19,7 +19,9 @@ PROP = "C14"
 LEVEL = "exploration"
 
 ATOMS = ["a", " a", "a ", " a ", "\na", "a\nb", "k=v", " k = v ", "k=\nv", "2=v", "02=v", "k= v w ", "x y",
-         "3= p ", "j =w", "m=v\nw", " n = a\n b ", " 4 =q", "\n5 = r\n", "²=s", "٣=t"]
+         "3= p ", "j =w", "m=v\nw", " n = a\n b ", " 4 =q", "\n5 = r\n", "²=s", "٣=t",
+         # names Lua's tonumber() accepts but the argument rule keeps as strings
+         "0=z", "-1=n", "1e1=e", "0x10=h", "1.0=f"]
 SMALL = ["a", " b ", "k=v", "2=w", "\nc"]
 ECHO = r"""
 local e = {}
